@@ -425,7 +425,8 @@ func (fr *frame) appendCall(x *ssa.Call, args []*Term, st *state) {
 	next := g.base(st, "next", "Int", 0, false)
 	newarr := g.fresh(fr.name(x)+"_arr", "Int")
 	g.assert("(= " + newarr + " (ite " + fits + " (s_arr " + s.S + ") " + next + "))")
-	newoff := "(ite " + fits + " (s_off " + s.S + ") 0)"
+	newoff := g.fresh(fr.name(x)+"_off", "Int")
+	g.assert("(= " + newoff + " (ite " + fits + " (s_off " + s.S + ") 0))")
 	ncap := g.fresh(fr.name(x)+"_cap", "Int")
 	g.assert("(and (>= " + ncap + " (+ " + n + " " + k + ")) (<= " + ncap + " 1152921504606846975))")
 	g.addObl(fr, st, "nooverflow", "append-len:"+fr.srcAnchor(x.Pos(), isCall, "append"), "slice length stays within int", x.Pos(), "(<= (+ "+n+" "+k+") 1152921504606846975)")
